@@ -78,17 +78,19 @@ type Env struct {
 	N    *simnet.Net
 	R    *simrt.RNG
 
-	mu      sync.Mutex
-	viol    []Violation
-	Toks    map[int]*Tok
-	Subs    map[int]*SubState
-	Probes  map[string]int
-	servers []*Server
-	clients []*Client
-	Counter int64
-	invs    []inv
-	atStep  []stepHook
-	Notes   []string
+	mu       sync.Mutex
+	viol     []Violation
+	Toks     map[int]*Tok
+	Subs     map[int]*SubState
+	Probes   map[string]int
+	servers  []*Server
+	clients  []*Client
+	Counter  int64
+	Done     chan struct{} // closed at teardown: harness producers stop
+	doneOnce sync.Once
+	invs     []inv
+	atStep   []stepHook
+	Notes    []string
 }
 
 func NewEnv(seed uint64, cfg RunCfg, follow []string, lenient bool) *Env {
@@ -98,7 +100,7 @@ func NewEnv(seed uint64, cfg RunCfg, follow []string, lenient bool) *Env {
 	n := simnet.New(s, simnet.Cfg{ChunkMax: cfg.ChunkMax, ParkWrites: true,
 		LatMin: time.Duration(cfg.LatMinUs) * time.Microsecond, LatMax: time.Duration(cfg.LatMaxUs) * time.Microsecond})
 	e := &Env{Seed: seed, Cfg: cfg, S: s, N: n, R: simrt.NewRNG(seed).Sub("env"),
-		Toks: map[int]*Tok{}, Subs: map[int]*SubState{}, Probes: map[string]int{}}
+		Toks: map[int]*Tok{}, Subs: map[int]*SubState{}, Probes: map[string]int{}, Done: make(chan struct{})}
 	websocket.DefaultDialer = &websocket.Dialer{NetDialContext: n.Dialer(true), HandshakeTimeout: 45 * time.Second}
 	return e
 }
